@@ -30,8 +30,8 @@ func init() {
 	regProp(&PropInfo{
 		ID:    "C17",
 		Title: "Reported error positions point at the offending byte",
-		Decided: "one window rule only: for the capture buffer that tees a non-seekable input beside the buffering json.Decoder, bytes are discarded only up to the decoder's InputOffset (or after EOF), never the decoder's read-ahead (R-C17-window).",
-		NotCovered: "every number the messages print: line, column, width-aware caret, excerpting of long lines; the seekable re-reading path; YAML positions; ParseError.Offset/Token of the lexer; CRLF/CR handling.",
+		Decided: "for the capture buffer that tees a non-seekable input beside the buffering json.Decoder, bytes are discarded only up to the decoder's InputOffset (or after EOF), never the decoder's read-ahead (R-C17-window).",
+		NotCovered: "every number the messages print: line, column, width-aware caret, excerpting of long lines; the seekable re-reading path; YAML positions; the numeric value of ParseError.Offset; CRLF/CR handling.",
 	})
 	reg(&Rule{ID: "R-C15-streams", Props: []string{"C15"}, Floor: 8,
 		Doc: "cli.outStream is written only in printValues and the help/version blocks; diagnostics target cli.errStream; no os.Stdout/os.Stderr/fmt.Print*/log/println in cli or gojq",
